@@ -346,3 +346,64 @@ Lemma conc_example :
   let s' := crun cx_params cw_key (cinit (mkEntry init_key 0 0) [2; 1; 2]%nat) cx_sched in
   all_done s' = true /\ c_sent s' = 3%nat /\ c_limited s' = 2%nat.
 Proof. vm_compute. repeat split; reflexivity. Qed.
+
+(* ---- every workload can run to completion ------------------------------------------------- *)
+
+Definition rem_steps (th : thread) : nat :=
+  (4 * th_todo th + match th_pc th with Idle => 0 | Locked => 3 | HasRead _ => 2 | Written => 1 end)%nat.
+
+Lemma cstep_measure p k s l s' : cstep p k s l = Some s' ->
+  (S (total rem_steps (c_threads s')) = total rem_steps (c_threads s))%nat.
+Proof.
+  destruct l as [[tid now] rnd]. unfold cstep.
+  destruct (nth_error (c_threads s) tid) as [th|] eqn:ET; [|discriminate].
+  destruct (th_pc th) as [| |e|] eqn:EP.
+  - destruct (th_todo th) as [|m] eqn:ETD; [discriminate|]. destruct (c_lock s); [discriminate|].
+    intros H; inversion H; subst s'; cbn [c_threads].
+    pose proof (total_set_nth rem_steps (c_threads s) tid th (mkThread Locked m) ET) as HT.
+    set (T1 := total rem_steps (set_nth _ _ _)) in *. set (T0 := total rem_steps (c_threads s)) in *.
+    unfold rem_steps in HT. rewrite EP, ETD in HT. cbn in HT. lia.
+  - intros H; inversion H; subst s'; cbn [c_threads].
+    pose proof (total_set_nth rem_steps (c_threads s) tid th (mkThread (HasRead (c_cell s)) (th_todo th)) ET) as HT.
+    set (T1 := total rem_steps (set_nth _ _ _)) in *. set (T0 := total rem_steps (c_threads s)) in *.
+    unfold rem_steps in HT. rewrite EP in HT. cbn in HT. lia.
+  - destruct (cell_step p k e now rnd) as [[e' act]| |]; try discriminate.
+    intros H; inversion H; subst s'; cbn [c_threads].
+    pose proof (total_set_nth rem_steps (c_threads s) tid th (mkThread Written (th_todo th)) ET) as HT.
+    set (T1 := total rem_steps (set_nth _ _ _)) in *. set (T0 := total rem_steps (c_threads s)) in *.
+    unfold rem_steps in HT. rewrite EP in HT. cbn in HT. lia.
+  - intros H; inversion H; subst s'; cbn [c_threads].
+    pose proof (total_set_nth rem_steps (c_threads s) tid th (mkThread Idle (th_todo th)) ET) as HT.
+    set (T1 := total rem_steps (set_nth _ _ _)) in *. set (T0 := total rem_steps (c_threads s)) in *.
+    unfold rem_steps in HT. rewrite EP in HT. cbn in HT. lia.
+Qed.
+
+Lemma conc_can_finish_from p k lo hi A0 n now : wf_params p -> hi - lo < nanos_per_sec -> lo <= now <= hi ->
+  forall m s, total rem_steps (c_threads s) = m -> inv p k hi A0 n s ->
+  exists sched, Forall (fun l => lo <= label_now l <= hi) sched /\ all_done (crun p k s sched) = true.
+Proof.
+  intros W TW TN. induction m as [|m IH]; intros s Hm I.
+  - exists []. split; [constructor|]. cbn [crun].
+    destruct (all_done s) eqn:ED; [reflexivity|exfalso].
+    destruct (conc_progress p k lo hi A0 n s now 0 W TW TN I ED) as (tid & s' & HS).
+    pose proof (cstep_measure _ _ _ _ _ HS) as HM. lia.
+  - destruct (all_done s) eqn:ED.
+    + exists []. split; [constructor|exact ED].
+    + destruct (conc_progress p k lo hi A0 n s now 0 W TW TN I ED) as (tid & s' & HS).
+      pose proof (cstep_measure _ _ _ _ _ HS) as HM.
+      destruct (IH s' ltac:(lia) (inv_step p k lo hi A0 n s s' tid now 0 W TW TN I HS)) as (sched & HF & HD).
+      exists ((tid, now, 0) :: sched). split; [constructor; [exact TN|exact HF]|].
+      cbn [crun]. rewrite HS. exact HD.
+Qed.
+
+(* for every workload there is a complete schedule inside the window (so the hypotheses of
+   conc_exact are satisfiable for every workload, and the lock discipline cannot deadlock) *)
+Lemma conc_can_finish p k lo hi e bursts : wf_params p -> cell_ok p k hi e ->
+  hi - lo < nanos_per_sec -> lo <= hi ->
+  exists sched, Forall (fun l => lo <= label_now l <= hi) sched /\
+                all_done (crun p k (cinit e bursts) sched) = true.
+Proof.
+  intros W CO TW LH.
+  apply (conc_can_finish_from p k lo hi (avail p k e) (list_sum bursts) lo W TW ltac:(lia) _ _ eq_refl
+           (inv_init p k hi e bursts CO)).
+Qed.
